@@ -134,11 +134,16 @@ func bigC16(run *report.Run, acc *pairAcc) {
 		}
 		h := int(bt.root.Height)
 		parallelFor(cfg.NAll(), func(i int) {
+			var tweak func(rc *mast.RemoteConfig)
 			count := func(api string, bound int, f func(t *mast.Mast) error, mustKeepHeight bool) {
 				w2 := *bt.w
 				store2 := cloneStore(bt.w)
 				w2.Store = store2
-				t, err := bt.root.LoadMast(ctx, w2.RemoteConfig(store2, false))
+				rc := w2.RemoteConfig(store2, false)
+				if tweak != nil {
+					tweak(rc)
+				}
+				t, err := bt.root.LoadMast(ctx, rc)
 				if err != nil {
 					return
 				}
@@ -158,6 +163,17 @@ func bigC16(run *report.Run, acc *pairAcc) {
 			}
 			key := cfg.Key(i)
 			count("Get", h+1, func(t *mast.Mast) error { _, err := t.Get(ctx, key, nil); return err }, false)
+			// the same lookup with somewhere to put the value: a typed destination, an interface destination, and
+			// both on a handle opened without ValuesLike (a reader that only knows the key type)
+			getTyped := func(t *mast.Mast) error { var s string; _, err := t.Get(ctx, key, &s); return err }
+			getIface := func(t *mast.Mast) error { var v interface{}; _, err := t.Get(ctx, key, &v); return err }
+			count("Get-into-a-typed-destination", h+1, getTyped, false)
+			count("Get-into-an-interface-destination", h+1, getIface, false)
+			tweak = func(rc *mast.RemoteConfig) { rc.ValuesLike = nil }
+			count("Get|handle-without-ValuesLike", h+1, func(t *mast.Mast) error { _, err := t.Get(ctx, key, nil); return err }, false)
+			count("Get-into-a-typed-destination|handle-without-ValuesLike", h+1, getTyped, false)
+			count("Get-into-an-interface-destination|handle-without-ValuesLike", h+1, getIface, false)
+			tweak = nil
 			count("Insert", 2*(h+1), func(t *mast.Mast) error { return t.Insert(ctx, key, "b") }, true)
 			count("Delete", 2*(h+1), func(t *mast.Mast) error { t.Delete(ctx, key, cfg.Vals[0]); return nil }, true)
 			// persisting after one modification reads nothing that the modification has not already read
